@@ -23,7 +23,7 @@ META = dict(
          "same window in two non-adjacent places); tables with a missing (NaT) time and with repeated timestamps; a test configured on the depth column itself; one Config object run "
          "first on data lacking a configured stream and then on complete data; window bounds as ISO strings and "
          "datetime objects; front ends: PandasStream (RangeIndex / shifted ints / DatetimeIndex / repeated labels), NumpyStream (ndarray / "
-         "dict), XarrayStream (time as dimension coordinate / as data variable / from a NetCDF-3 file path), NetcdfStream (in-memory Dataset / file path), QcConfig.run. Oracle per "
+         "dict), XarrayStream (time as dimension coordinate / as data variable / from a NetCDF-3 file path), NetcdfStream (in-memory Dataset / file path), QcConfig.run; Pandas/Xarray/Netcdf streams also with custom axis column names. Oracle per "
          "configured (context, stream, test): exactly one result whose subset mask equals starting<=t<ending and whose "
          "flags equal the real test function called directly on those rows with the context's parameters (the probe "
          "additionally checks the inp/tinp/zinp/lat/lon it received). non-trivial = the window excludes at least one row "
@@ -290,6 +290,8 @@ def axis_stream_programs(n):
 
 def tasks(tier):
     ts = [("reuse", 4, fe) for fe in ("pandas:range", "numpy:dict", "xarray:coord", "netcdf")]
+    for fe in ("pandas:names", "xarray:names", "netcdf:names"):
+        ts.append(("one", 4, fe))
     for fe in ("xarray:file", "netcdf:file"):
         ts.append(("one", 3, fe))
         ts.append(("two", 4, fe))
